@@ -17,6 +17,7 @@ import (
 
 	"github.com/sirupsen/logrus"
 	"github.com/spf13/viper"
+	"google.golang.org/protobuf/encoding/protowire"
 
 	"github.com/atlassian/gostatsd"
 	"github.com/atlassian/gostatsd/internal/flush"
@@ -73,7 +74,7 @@ func exactEvent(e *gostatsd.Event) string {
 
 func (c14) Run(e *Env) {
 	e.ProbeDecl("non-finite-value", "empty-tags", "empty-source", "same-set-name-two-tagsets", "sampled-timer", "event", "retry-after-5xx", "post-built-while-other-backs-off", "damaged-in-flight", "damaged-compressed-then-valid",
-		"damage-decoded-anyway", "lost-response-duplicate", "huge-values", "redirected-to-other-node", "very-large-flush")
+		"damage-decoded-anyway", "lost-response-duplicate", "huge-values", "redirected-to-other-node", "very-large-flush", "body-cut-short", "body-cut-at-field-boundary")
 	compType := []string{"none", "zlib", "lz4"}[e.Draw(3)]
 	level := e.Draw(10)
 	v := viper.New()
@@ -288,7 +289,7 @@ func (c14) Run(e *Env) {
 			}
 			r := p.Arg.(*HTTPReq)
 			compressed := r.Header.Get("Content-Encoding") == "deflate" || r.Header.Get("Content-Encoding") == "lz4"
-			kind := e.Weighted("link", []int{6, 2, 1, 3, 1})
+			kind := e.Weighted("link", []int{6, 2, 1, 3, 1, 2})
 			before := len(absorb())
 			_ = before
 			switch kind {
@@ -338,6 +339,48 @@ func (c14) Run(e *Env) {
 				e.Fault("lost-response")
 				e.Probe("lost-response-duplicate")
 				e.Event("lost response %s", r.Path)
+			case 5: // the connection is lost in the middle of the request body
+				if r.Path == "/v2/raw" {
+					e.Unstable("damage-applied-to-a-body-whose-bytes-follow-map-order") // where the cut falls depends on the byte layout
+				}
+				cut := 1
+				if len(r.Body) > 2 {
+					cut = 1 + e.Draw(len(r.Body)-1)
+				}
+				if enc := r.Header.Get("Content-Encoding"); (enc == "" || enc == "identity") && e.Bool() {
+					// at a boundary between two top-level protobuf fields: what was received is a
+					// well-formed message, only shorter
+					var bounds []int
+					for rest, off := r.Body, 0; len(rest) > 0; {
+						_, _, n := protowire.ConsumeField(rest)
+						if n <= 0 {
+							break
+						}
+						off += n
+						rest = rest[n:]
+						if len(rest) > 0 {
+							bounds = append(bounds, off)
+						}
+					}
+					if len(bounds) > 0 {
+						cut = bounds[e.Draw(len(bounds))]
+						e.Probe("body-cut-at-field-boundary")
+					}
+				}
+				if cut >= len(r.Body) {
+					fab.Gate.Release(p, HTTPOutcome{Kind: "status", Status: 503})
+					e.Fault("http-5xx")
+					break
+				}
+				fab.Gate.Release(p, HTTPOutcome{Kind: "serve", CutBodyAt: cut})
+				e.Settle()
+				d := absorb()
+				e.Fault("connection-lost-mid-body")
+				e.Probe("body-cut-short")
+				if r.Status < 400 || len(d) != 0 {
+					e.Failf("C14/incomplete-body-accepted", "a %s request whose body ended after %d of the %d bytes announced by Content-Length was answered %d and dispatched %d items", r.Path, cut, len(r.Body), r.Status, len(d))
+				}
+				e.Event("body cut at %d/%d %s -> %d", cut, len(r.Body), r.Path, r.Status)
 			case 3, 4: // damaged in flight
 				mode := e.Draw(4)
 				if kind == 4 {
